@@ -239,13 +239,21 @@ class PDFResourceManager:
                 font = PDFCIDFont(self, spec)
             elif subtype == "Type0":
                 # Type0 Font
-                dfonts = list_value(spec["DescendantFonts"])
-                assert dfonts
+                dfonts = list_value(spec.get("DescendantFonts", []))
+                if not dfonts:
+                    raise PDFFontError("Type0 font without DescendantFonts")
                 subspec = dict_value(dfonts[0]).copy()
                 for k in ("Encoding", "ToUnicode"):
                     if k in spec:
                         subspec[k] = resolve1(spec[k])
-                font = self.get_font(None, subspec)
+                if literal_name(subspec.get("Subtype", LITERAL_FONT)) == "Type0":
+                    # The descendant of a Type0 font is a CIDFont; a Type0
+                    # font named as its own descendant would never end.
+                    if settings.STRICT:
+                        raise PDFFontError("Type0 font as descendant font")
+                    font = PDFCIDFont(self, subspec)
+                else:
+                    font = self.get_font(None, subspec)
             else:
                 if settings.STRICT:
                     raise PDFFontError("Invalid Font spec: %r" % spec)
